@@ -35,6 +35,32 @@ theorem adjacent_iff (topo : Option (Topology Name)) (me other : Name) :
 example : isAdjacent (some [("A", ["B"]), ("B", [])]) "A" "B" = true ∧
           isAdjacent (some [("A", ["B"]), ("B", [])]) "B" "A" = false := by decide
 
+/-! corollaries (added after seeded change C12 r6m1: a node without an entry fell back to "no topology") -/
+
+/-- a configured topology that does not mention `me` gives `me` NO neighbour (it does not fall back to
+"no topology = everybody") -/
+theorem unlisted_node_has_no_neighbours (t : Topology Name) (me other : Name) (h : lookup t me = none) :
+    isAdjacent (some t) me other = false := by
+  cases hb : isAdjacent (some t) me other with
+  | false => rfl
+  | true =>
+    rcases (adjacent_iff (some t) me other).1 hb with h0 | ⟨t', ns, h0, h1, _⟩
+    · cases h0
+    · cases h0; rw [h] at h1; cases h1
+
+/-- a node listed with an empty neighbour list has no neighbour either -/
+theorem empty_list_no_neighbours (t : Topology Name) (me other : Name) (h : lookup t me = some []) :
+    isAdjacent (some t) me other = false := by
+  cases hb : isAdjacent (some t) me other with
+  | false => rfl
+  | true =>
+    rcases (adjacent_iff (some t) me other).1 hb with h0 | ⟨t', ns, h0, h1, h2⟩
+    · cases h0
+    · cases h0; rw [h] at h1; cases h1; cases h2
+
+example : lookup [("A", ["B"]), ("B", [])] "C" = none ∧
+    isAdjacent (some [("A", ["B"]), ("B", [])]) "C" "A" = false := by decide
+
 /-- the node ids the guard works with are the positions in the sorted list of all node names
 (`get_node_id_from_net_config`): `sortNames` is a permutation of the names, sorted for every `lt` that is
 asymmetric and whose complement is transitive (any strict total order, e.g. code-point order on strings). -/
